@@ -267,6 +267,8 @@ def scenarios(tier):
         dims = D[scen.ndim(g)]
         T.append({'name': 'builders/%s' % g, 'fn': 'pv.props.c15:builders', 'params': {'g': g, 'dims': dims}, 'timeout': 30, 'validate': 1})
         T.append({'name': 'solvers/%s' % g, 'fn': 'pv.props.c15:solvers', 'params': {'g': g, 'dims': dims}, 'timeout': 30, 'validate': 1})
+        d3 = {1: [2], 2: [2, 3], 3: [1, 2, 3]}[scen.ndim(g)]
+        T.append({'name': 'builders/%s/asym' % g, 'fn': 'pv.props.c15:builders', 'params': {'g': g, 'dims': d3}, 'timeout': 30, 'validate': 1})
         if tier == 'thorough':
             d2 = {1: [1], 2: [1, 3], 3: [2, 1, 2]}[scen.ndim(g)]
             T.append({'name': 'builders/%s/alt' % g, 'fn': 'pv.props.c15:builders', 'params': {'g': g, 'dims': d2}, 'timeout': 30, 'validate': 1})
